@@ -23,7 +23,7 @@ struct DfOpt
 	template <class P> std::size_t size(P const&) const { return sizeof(v); }
 };
 
-enum Kind { SEND, RECV, CLOSE, REOPEN, TAKEOVER, SETOPT, ADVANCE };
+enum Kind { SEND, RECV, CLOSE, REOPEN, TAKEOVER, SETOPT, ADVANCE, MOVE };
 struct Op { Kind k; int a, b, c; const char* name; };
 // SEND: a=sender(0,1) b=size code c=dst port ; RECV: a=receiver b=style c=buffer code
 // sizes: code -> (total, nbufs)
@@ -63,6 +63,9 @@ std::vector<Op> menu_ops(bool full)
 	m.push_back(Op{ ADVANCE, 0, 0, 0, "advance 0.5ms" });
 	m.push_back(Op{ ADVANCE, 1, 0, 0, "advance 5ms" });
 	if (full) m.push_back(Op{ CLOSE, 1, 0, 0, "r1.close()" });
+	// move-construct a socket that has no operation outstanding into a new object (the old object is destroyed): binding, queued datagrams, options and pacing state move along
+	m.push_back(Op{ MOVE, 0, 0, 0, "r0 = socket(std::move(r0))" });
+	m.push_back(Op{ MOVE, 1, 0, 0, "s0 = socket(std::move(s0))" });
 	return m;
 }
 
@@ -76,7 +79,7 @@ struct Exec
 {
 	std::vector<Op> const& menu; int DEPTH; Chooser* ch; Ctx* ctx;
 	std::vector<std::string> fails, log;
-	int ops_done = 0;
+	int ops_done = 0; int move_until = 2; // a socket may be move-constructed as the first or second op of a sequence (anywhere in the thorough tier)
 	uint64_t n_delivered = 0, n_taildrop = 0, n_vanished = 0, n_wouldblock = 0, n_truncated = 0, n_sockdrop = 0;
 
 	struct RS { bool open = false; int port = 0; int inc = 0; bool recv_outstanding = false; std::vector<int> unread; /* ids delivered to the socket's queue per model */ int style = 0; int bufcode = 0;
@@ -91,7 +94,7 @@ struct Exec
 	std::unique_ptr<asio::high_resolution_timer> timer;
 	std::vector<std::unique_ptr<std::vector<char>>> sendbufs_keep;
 
-	Exec(std::vector<Op> const& m, int d, Chooser* c, Ctx* x) : menu(m), DEPTH(d), ch(c), ctx(x) {}
+	Exec(std::vector<Op> const& m, int d, Chooser* c, Ctx* x) : menu(m), DEPTH(d), ch(c), ctx(x) { move_until = d >= 6 ? d : 2; /* depth 6 is the thorough tier */ }
 	void fail(std::string const& f) { fails.push_back(f); }
 
 	bool enabled(Op const& o)
@@ -104,6 +107,7 @@ struct Exec
 			case TAKEOVER: return !rs[2].open && binding.find(o.c) == binding.end();
 			case SETOPT: return true;
 			case ADVANCE: return true;
+			case MOVE: return ops_done < move_until && (o.a == 1 ? true : (rs[0].open && !rs[0].recv_outstanding));
 		}
 		return false;
 	}
@@ -235,6 +239,11 @@ struct Exec
 				sendbuf_bytes[0] = o.b; log.push_back(fmt("@%lld %s", (long long)t, o.name));
 				break; }
 			case ADVANCE: break;
+			case MOVE: {
+				log.push_back(fmt("@%lld %s", (long long)t, o.name));
+				std::unique_ptr<ip::udp::socket>& sp = o.a == 1 ? s[0] : r[0];
+				ip::udp::socket* moved = nullptr; VF_API(moved = new ip::udp::socket(std::move(*sp))); VF_API(sp.reset(moved));
+				break; }
 		}
 	}
 
